@@ -42,6 +42,10 @@ func GenC01(r *RNG) *SrvPlan {
 		l.AfterResp = true
 		p.Lanes = append(p.Lanes, l)
 	}
+	if r.Intn(8) == 0 {
+		// request header blocks that fill the server's HPACK table to the octet and then refer to its oldest entry
+		hpackTableFull(r, p.Lanes, 4096)
+	}
 	p.GateMode = Pick(r, "sched", "sched", "open")
 	p.Mask = genMask(r)
 	p.PoolPol = r.Intn(3)
